@@ -6,7 +6,7 @@
 (* _open_seekable2), on the same page / sync-buffer / seek primitives as   *)
 (* VFSeek.                                                                 *)
 (*                                                                         *)
-(* A page is [off, len, ser, gp, bos, hp, dur]: byte offset and length,    *)
+(* A page is [off, len, ser, gp, bos, hp, bs]:  byte offset and length,    *)
 (* serial number, granule position (-1: no packet ends on it), whether it  *)
 (* begins a logical stream, how many HEADER packets of its stream end on   *)
 (* it (the BOS page of a Vorbis stream: 1; then 2 more on one or two       *)
@@ -63,17 +63,22 @@ FetchHeaders(PG, VS, rd, K) ==
   LET n == Next1(PG, rd, K.chunk, K) IN
   IF n.r = 0 THEN [ok |-> FALSE, list |-> <<>>, vser |-> 0, rd |-> n.rd] ELSE FetchBos(PG, VS, n.rd, n.r, <<>>, FALSE, 0, K, Len(PG) + 2)
 
-(* _initial_pcmoffset: [first, rd] *)
-RECURSIVE InitialPcm(_, _, _, _, _, _)
-InitialPcm(PG, rd, vser, acc, K, fuel) ==
+(* _initial_pcmoffset: [first, rd].  bs of an audio page = the block sizes of the packets that end on it; the samples they account for depend on the
+   block before (lastblock, -1 at the start: the first packet counted accounts for nothing) *)
+RECURSIVE Account(_, _, _, _)
+Account(bs, k, acc, last) == IF k > Len(bs) THEN [acc |-> acc, last |-> last]
+                             ELSE Account(bs, k + 1, IF last # -1 THEN acc + (last + bs[k]) \div 4 ELSE acc, bs[k])
+RECURSIVE InitialPcm(_, _, _, _, _, _, _)
+InitialPcm(PG, rd, vser, acc, last, K, fuel) ==
   IF fuel = 0 THEN [first |-> 0, rd |-> Out(rd)]
   ELSE LET n == Next1(PG, rd, -1, K) IN
        IF n.r = 0 THEN [first |-> IF acc < 0 THEN 0 ELSE acc, rd |-> n.rd]
        ELSE LET p == PG[n.r] IN
             IF p.bos THEN [first |-> IF acc < 0 THEN 0 ELSE acc, rd |-> n.rd]
-            ELSE IF p.ser # vser THEN InitialPcm(PG, n.rd, vser, acc, K, fuel - 1)
-            ELSE IF p.gp # -1 THEN [first |-> IF p.gp - (acc + p.dur) < 0 THEN 0 ELSE p.gp - (acc + p.dur), rd |-> n.rd]
-            ELSE InitialPcm(PG, n.rd, vser, acc + p.dur, K, fuel - 1)
+            ELSE IF p.ser # vser THEN InitialPcm(PG, n.rd, vser, acc, last, K, fuel - 1)
+            ELSE LET a == Account(p.bs, 1, acc, last) IN
+                 IF p.gp # -1 THEN [first |-> IF p.gp - a.acc < 0 THEN 0 ELSE p.gp - a.acc, rd |-> n.rd]
+                 ELSE InitialPcm(PG, n.rd, vser, a.acc, a.last, K, fuel - 1)
 
 (* _get_prev_page_serial(begin, list, *serialno, *granpos): [ret, ser, gran, rd]; ret < 0: error *)
 \* inner read loop of one back-step: s = [offset, pref, rser, rgran, gran]
@@ -133,7 +138,7 @@ BisectForward(PG, VS, rd, begin, searched, end, endgran, endserial, list, vser, 
        IF ~f.ok THEN [ok |-> FALSE, links |-> <<>>, rd |-> f.rd]
        ELSE LET h == FetchHeaders(PG, VS, SeekTo(f.rd, b.next), K) IN
             IF ~h.ok THEN [ok |-> FALSE, links |-> <<>>, rd |-> h.rd]
-            ELSE LET ip == InitialPcm(PG, h.rd, h.vser, 0, K, Len(PG) + 2)
+            ELSE LET ip == InitialPcm(PG, h.rd, h.vser, 0, -1, K, Len(PG) + 2)
                      rest == BisectForward(PG, VS, ip.rd, b.next, ip.rd.off, end, endgran, endserial, h.list, h.vser, K, fuel - 1) IN
                  IF ~rest.ok THEN [ok |-> FALSE, links |-> <<>>, rd |-> rest.rd]
                  ELSE LET nx == rest.links[1]
@@ -145,7 +150,7 @@ Open(PG, VS, K) ==
   LET rd0 == [off |-> 0, base |-> 0, probes |-> <<>>]
       h == FetchHeaders(PG, VS, rd0, K) IN
   IF ~h.ok THEN [ok |-> FALSE, links |-> <<>>, probes |-> h.rd.probes]
-  ELSE LET ip == InitialPcm(PG, h.rd, h.vser, 0, K, Len(PG) + 2)
+  ELSE LET ip == InitialPcm(PG, h.rd, h.vser, 0, -1, K, Len(PG) + 2)
            rdE == [ip.rd EXCEPT !.off = DataEnd(PG), !.base = DataEnd(PG), !.probes = Append(ip.rd.probes, DataEnd(PG))]      \* seek_func(0, SEEK_END)
            e == GetPrevSerial(PG, rdE, DataEnd(PG), h.list, h.vser, -1, K) IN
        IF e.ret < 0 THEN [ok |-> FALSE, links |-> <<>>, probes |-> e.rd.probes]
